@@ -40,6 +40,68 @@ class Terms:
                 # a module-level mapping filled in steps: `state_model.update(zip(keys, values))`
                 self.updates.setdefault(s.value.func.value.id, []).append(("update", s.value.args[0], None))
         self.cache = {}
+        self.funcs = {f.name: f for f in mod.body if isinstance(f, ast.FunctionDef)}
+        self.depth = 0
+
+    def merge_update(self, v, new):
+        entries = list(v[1])
+        for k_, val_ in new:
+            hit = [i for i, (k0, _) in enumerate(entries) if k0 == k_]
+            if hit:
+                entries[hit[0]] = (k_, val_)
+            else:
+                entries.append((k_, val_))
+        return ("dict", tuple(entries))
+
+    def pairs_of(self, u):
+        if isinstance(u, tuple) and u and u[0] == "dict":
+            return list(u[1])
+        if isinstance(u, tuple) and u and u[0] == "list" and all(isinstance(x, tuple) and x[0] == "list" and len(x[1]) == 2 for x in u[1]):
+            return [(x[1][0], x[1][1]) for x in u[1]]
+        return None
+
+    def call_user(self, fn, args, kwargs):
+        """a helper function of the model file: straight-line body (local bindings, `d.update(..)` / `d[k] = v` on a local mapping, one return)"""
+        if self.depth > 6 or fn.args.vararg or fn.args.kwarg:
+            return ("unknown", fn.name)
+        params = [a.arg for a in fn.args.posonlyargs + fn.args.args]
+        if len(args) > len(params):
+            return ("unknown", fn.name)
+        loc = dict(zip(params, args))
+        for k, v in kwargs.items():
+            loc[k] = v
+        defaults = dict(zip(params[len(params) - len(fn.args.defaults):], fn.args.defaults)) if fn.args.defaults else {}
+        for p_ in params:
+            if p_ not in loc:
+                if p_ not in defaults:
+                    return ("unknown", fn.name)
+                loc[p_] = self.ev(defaults[p_])
+        self.depth += 1
+        try:
+            for st in fn.body:
+                if isinstance(st, ast.Expr) and isinstance(st.value, ast.Constant):
+                    continue
+                if isinstance(st, ast.Assign) and len(st.targets) == 1 and isinstance(st.targets[0], ast.Name):
+                    loc[st.targets[0].id] = self.ev(st.value, loc)
+                elif isinstance(st, ast.Assign) and len(st.targets) == 1 and isinstance(st.targets[0], ast.Subscript) and isinstance(st.targets[0].value, ast.Name) \
+                        and st.targets[0].value.id in loc and loc[st.targets[0].value.id][0] == "dict":
+                    nm = st.targets[0].value.id
+                    loc[nm] = self.merge_update(loc[nm], [(self.ev(st.targets[0].slice, loc), self.ev(st.value, loc))])
+                elif isinstance(st, ast.Expr) and isinstance(st.value, ast.Call) and isinstance(st.value.func, ast.Attribute) and st.value.func.attr == "update" \
+                        and isinstance(st.value.func.value, ast.Name) and st.value.func.value.id in loc and len(st.value.args) == 1 \
+                        and loc[st.value.func.value.id][0] == "dict":
+                    nm = st.value.func.value.id
+                    new = self.pairs_of(self.ev(st.value.args[0], loc))
+                    if new is None:
+                        return ("unknown", fn.name)
+                    loc[nm] = self.merge_update(loc[nm], new)
+                elif isinstance(st, ast.Return):
+                    return self.ev(st.value, loc) if st.value is not None else ("const", None)
+                else:
+                    return ("unknown", fn.name)
+        finally:
+            self.depth -= 1
+        return ("const", None)
 
     def name(self, n):
         if n in self.cache:
@@ -252,6 +314,10 @@ class Terms:
                     return add(b, flat[0])
                 if f.attr == "to_rotation_matrix" and not flat:
                     return ("R", b)
+            if isinstance(f, ast.Name) and f.id in self.funcs and f.id not in loc and not any(a[0] == "star" for a in flat):
+                r_ = self.call_user(self.funcs[f.id], flat, {k.arg: self.ev(k.value, loc) for k in e.keywords if k.arg})
+                if not (isinstance(r_, tuple) and r_ and r_[0] == "unknown"):
+                    return r_
             return ("call", fname, tuple(flat))
         if isinstance(e, ast.Dict):
             entries = []
@@ -389,6 +455,14 @@ def run(ctx: core.Ctx) -> int:
     qs = o[1] if o[0] == "qmul" else None
     conj_name = next((n for n, d in T.defs.items() if isinstance(d, ast.Call) and ast.unparse(d.func) == "Quaternion"
                       and all("orientation." in ast.unparse(a) for a in d.args)), None)
+    if conj_name is None:
+        # however it is spelled (a helper function, a comprehension over .args): the module-level quaternion whose scalar part is the composed
+        # orientation's and that is not the orientation itself
+        for n_ in T.defs:
+            v_ = T.name(n_)
+            if isinstance(v_, tuple) and v_ and v_[0] == "Q" and len(v_) == 5 and v_[1] == ("comp", o, "a"):
+                conj_name = n_
+                break
     conj = T.name(conj_name) if conj_name else None
     want_conj = ("Q", ("comp", o, "a"), ("neg", ("comp", o, "b")), ("neg", ("comp", o, "c")), ("neg", ("comp", o, "d")))
     oblige("SAME-ORIENTATION", f"conjugate = {short(conj)}", conj == want_conj, "conjugate", "the conjugate does not negate exactly the three vector components of the composed orientation")
